@@ -29,7 +29,7 @@ from specs import asm_source as S
 from specs.asm_source import Addr, Entry, Ins, Lab, Lbl, Lit, R, Slice
 
 from .c04 import _install
-from .exec_common import new_executor
+from .exec_common import run_bounded, new_executor
 
 LEVEL = "proof"
 TECHNIQUE = ("contract-based deductive verification (translation validation): source-level meaning function vs. the real assembler's output executed on the real executor, "
@@ -266,12 +266,7 @@ def _run(ctx, sub, init=()):
     ex.outcomes = []
     for (bank, i), x in init:
         ctx.call(ex._set_register, 0, Register(RegisterName[bank], i), x)
-    try:
-        gen = ctx.call(ex.execute_subroutine, sub)
-        ctx.call(list, gen)
-    except Raised as r:
-        return ex, r.e
-    return ex, None
+    return ex, run_bounded(ctx, ex, sub)
 
 
 def _compare(ctx, prog, sub, route, init=()):
